@@ -105,9 +105,11 @@ FULL STATEMENTS (both FALSE on the unchanged tree — `Witness.fmt_preserves_tok
 
 PROVED PART: both hold for every input in the fragment `W` (`inW`, Fragment.lean — an explicit
 DECIDABLE predicate on rune strings, no size bound): plain words, any non-CR white space /
-indentation / blank lines, arbitrarily nested `… {⏎ … ⏎}` blocks.  NOT covered by these two
-theorems (only by the correspondence stream and the impl-side oracle): comments, quoted /
-backquoted / heredoc tokens, placeholders `{x}`, line continuations, `#`/`"`/`<` inside words, CR.
+indentation / blank lines, arbitrarily nested `… {⏎ … ⏎}` blocks, comments (own line or after a
+word; any text without backtick / backslash / trailing blank).  NOT covered by these two
+theorems (only by the correspondence stream and the impl-side oracle): quoted / backquoted /
+heredoc tokens, placeholders `{x}`, line continuations, `#`/`"`/`<` inside words, CR, comments
+directly after a brace on the same line or directly before `{`.
 -/
 
 /-- on `W`, `Format` is the canonical re-rendering of the chunks (exact output) -/
@@ -136,9 +138,11 @@ example : inW (runes "  example.com   {\n\n\n  reverse_proxy  10.0.0.1:80\n\than
   decide
 set_option maxRecDepth 100000 in
 example : inW (runes "{\n  admin off\n}\n:443 {\n}\n") = true := by decide
+set_option maxRecDepth 100000 in
+example : inW (runes "# global\n\n\nexample.com {\n  # \"no\" <<tls> here\n  admin off # really\n}\n\n#\n# end") = true := by decide
 -- excluded, and indeed failing: one-line block, dangling brace, brace first on its line, CR inside a word
 set_option maxRecDepth 100000 in
 example : inW (runes "a { b }") = false ∧ inW (runes "a {") = false ∧ inW (runes "a\n{\n}") = false ∧
-    inW (runes "a\rb") = false := by decide
+    inW (runes "a\rb") = false ∧ inW (runes "# `\n{\n}") = false ∧ inW (runes "a # \\\n}") = false := by decide
 
 end CaddyModel.C17
